@@ -98,7 +98,7 @@ func c16Fresh(root string, m c16Model) (*interpreter.Interpreter, error) {
 	return it, nil
 }
 
-var c16Preds = []string{"fa", "ga", "ha", "ta", "fb", "gb", "hb", "tb", "fc", "gc", "hc", "tc", "i0", "i1", "i2", "i3", "i4", "d0", "nope", "bad", "n0", "dz", "zd", "ze", "tz"}
+var c16Preds = []string{"fa", "ga", "ha", "ta", "fb", "gb", "hb", "tb", "fc", "gc", "hc", "tc", "i0", "i1", "i2", "i3", "i4", "d0", "nope", "bad", "n0", "dz", "zd", "ze", "tz", "inv.item", "inv.big", "item", "cfg.port", "port"}
 
 // c16Observe renders what queries show: per predicate name either "unknown" or the sorted result set.
 func c16Observe(it *interpreter.Interpreter) (map[string]string, string) {
@@ -192,6 +192,8 @@ func runC16(r *simrt.Run, tier Tier) Outcome {
 	files["temporal.mg"] = "tz(/k1)@[2024-01-01, 2024-01-09].\ntz(/k2)@[2024-01-03].\n"
 	files["syntax.mg"] = "fa(/k1).\nga(Y :- fa(Y).\n"
 	files["unsafe.mg"] = "fz(/k1).\nbad(Y) :- fz(Z).\n"
+	// a source that lives in a package: its predicates are installed under qualified names
+	files["pk.mg"] = "Package inv!\nitem(/k1).\nitem(/k2).\nbig(X) :- item(X).\n"
 	files["bounds.mg"] = "Decl fy(A) bound [/number].\nfy(/k1).\n"
 	for name, text := range files {
 		if err := os.WriteFile(filepath.Join(root, name), []byte(text), 0o644); err != nil {
@@ -203,13 +205,14 @@ func runC16(r *simrt.Run, tier Tier) Outcome {
 		"i4(/k1)@[2024-01-01, 2024-01-03].", "Decl d0(A).", "d0(/k3).",
 		"n0(0).", "n0(2).",
 		// an explicit declaration for a predicate that a loaded file defines without one
+		"Package cfg! port(8080).",
 		"Decl fa(A).", "Decl gb(A) bound [/name].", "Decl fa(A). i3(Y) :- nope(Y).", "Decl fc(A). fc(/k1, /k2).",
 		// rejected at evaluation time when n0(0) is live (division by zero)
 		"dz(X) :- n0(Y), X = fn:div(6, Y).",
 		// rejected ones
 		"i0(/x", "i3(Y) :- nope(Y).", "fa(/k1, /k2).", "ga(/k9).", "bad(Y) :- i0(Z).", "i1(Y) :- fa(Y), Y < /k1.",
 	}
-	loads := []string{"a.mg", "b.mg", "c.mg", "decls.mg", "temporal.mg", "decls.mg", "temporal.mg", "a.mg,b.mg", "b.mg,c.mg", "missing.mg", "syntax.mg", "unsafe.mg", "bounds.mg", "a.mg,missing.mg"}
+	loads := []string{"a.mg", "b.mg", "c.mg", "decls.mg", "temporal.mg", "decls.mg", "temporal.mg", "a.mg,b.mg", "b.mg,c.mg", "pk.mg", "pk.mg", "missing.mg", "syntax.mg", "unsafe.mg", "bounds.mg", "a.mg,missing.mg"}
 
 	it := interpreter.New(io.Discard, root, nil)
 	model := c16Model{}
